@@ -148,7 +148,8 @@ class PoolEngine(Engine):
                                         "extra": [rng.choice([0, "x", [1, 2], None]) for _ in range(rng.randint(0, 3))],
                                         "ms": duration(i)}
                 if "raise" in enabled and rng.random() < 0.15:
-                    task["raise"] = rng.choice(["ValueError", "KeyError", "RuntimeError", "Boom", "ZeroDivisionError"])
+                    task["raise"] = rng.choice(["ValueError", "KeyError", "RuntimeError", "Boom", "ZeroDivisionError",
+                                                "StopIteration"])
                 if "unpicklable_result" in enabled and rng.random() < 0.1:
                     task["unpicklable_result"] = True
                 if "unpicklable_arg" in enabled and rng.random() < 0.1:
